@@ -5,35 +5,164 @@ import (
 	"errors"
 
 	"github.com/aperturerobotics/util/ccall"
-	"github.com/aperturerobotics/util/routine"
 	"gobmc/vrt"
 )
 
-// H_C17_ErrNotLost: two functions, one returns an error: the result must not be nil.
+// H_C17_ErrNotLost: two functions, one returns an error: the result must be that error.
 func H_C17_ErrNotLost() {
 	e1 := errors.New("e1")
 	f1 := func(ctx context.Context) error { return e1 }
 	f2 := func(ctx context.Context) error { return nil }
 	err := ccall.CallConcurrently(context.Background(), f1, f2)
-	vrt.Assert(err != nil, "ccall-error-lost")
+	vrt.Assert(err == e1, "ccall-error-lost")
 }
 
-// H_C05_TwoDrivers: SetState races SetContext on a StateRoutineContainer.
-func H_C05_TwoDrivers() {
-	var live int
-	fn := func(ctx context.Context, st int) error {
-		vrt.Atomic(func() { live++ })
-		<-ctx.Done()
-		vrt.Atomic(func() { live-- })
-		return context.Canceled
+// ccallOutcome: 0 nil entry, 1 returns nil, 2 returns its own error, 3 waits for its context
+// and returns context.Canceled.
+func ccallEntry(kind int, e error, calls, done *int) ccall.CallConcurrentlyFunc {
+	if kind == 0 {
+		return nil
 	}
-	k := routine.NewStateRoutineContainer[int](nil)
-	k.SetStateRoutine(fn)
-	ctxA, cancelA := context.WithCancel(context.Background())
-	_ = cancelA
-	vrt.Go("set-state", func() { k.SetState(1) })
-	vrt.Go("set-ctx", func() {
-		k.SetContext(ctxA, false)
-		k.ClearContext()
-	})
+	return func(ctx context.Context) error {
+		vrt.Atomic(func() { *calls++ })
+		var err error
+		switch kind {
+		case 1:
+		case 2:
+			err = e
+		default:
+			<-ctx.Done()
+			err = context.Canceled
+		}
+		vrt.Atomic(func() { *done++ })
+		return err
+	}
+}
+
+func ccallCheck(n int, kinds [3]int, es [3]error, calls, done [3]*int, cancelled bool, err error) {
+	anyErr, allNil, anyWait := false, true, false
+	for i := 0; i < n; i++ {
+		var c, d int
+		vrt.Atomic(func() { c, d = *calls[i], *done[i] })
+		if kinds[i] == 0 {
+			vrt.Assert(c == 0, "ccall-nil-entry-not-called")
+			continue
+		}
+		vrt.Assert(c <= 1, "ccall-called-at-most-once")
+		if kinds[i] == 2 {
+			anyErr = true
+		}
+		if kinds[i] == 3 {
+			anyWait = true
+		}
+		if err == nil {
+			// nil only after all of them have returned nil
+			vrt.Assert(c == 1 && d == 1 && kinds[i] == 1, "ccall-nil-only-if-all-nil")
+		}
+		if kinds[i] != 1 {
+			allNil = false
+		}
+	}
+	_ = allNil
+	if err != nil && err != context.Canceled {
+		ok := false
+		for i := 0; i < n; i++ {
+			var d int
+			vrt.Atomic(func() { d = *done[i] })
+			if kinds[i] == 2 && err == es[i] && d == 1 {
+				ok = true
+			}
+		}
+		vrt.Assert(ok, "ccall-error-was-returned-by-a-function")
+	}
+	if anyErr && !cancelled {
+		vrt.Assert(err != nil && err != context.Canceled, "ccall-error-not-lost")
+	}
+	if err == context.Canceled && !anyWait {
+		vrt.Assert(cancelled, "ccall-canceled-only-if-cancelled")
+	}
+}
+
+// H_C17_Three: three entries with symbolic kinds (nil entry / nil / error / wait-for-context),
+// optional cancellation of the caller's context at any time. Every function is invoked at most
+// once (exactly once when the call returns nil), nil is returned only after all returned nil,
+// an error is never lost, the returned error was really returned by a function, and at
+// quiescence nobody is still blocked (the functions' context is cancelled after the return).
+func H_C17_Three() {
+	var kinds [3]int
+	kinds[0] = vrt.Int("k0", 0, 3)
+	kinds[1] = vrt.Int("k1", 0, 3)
+	kinds[2] = vrt.Int("k2", 0, 3)
+	es := [3]error{errors.New("e0"), errors.New("e1"), errors.New("e2")}
+	var c0, c1, c2, d0, d1, d2 int
+	calls := [3]*int{&c0, &c1, &c2}
+	done := [3]*int{&d0, &d1, &d2}
+	ctx, cancel := context.WithCancel(context.Background())
+	cancelled := vrt.Bool("cancel")
+	if cancelled {
+		vrt.CancelAnytime(cancel)
+	}
+	err := ccall.CallConcurrently(ctx,
+		ccallEntry(kinds[0], es[0], calls[0], done[0]),
+		ccallEntry(kinds[1], es[1], calls[1], done[1]),
+		ccallEntry(kinds[2], es[2], calls[2], done[2]))
+	ccallCheck(3, kinds, es, calls, done, cancelled, err)
+	if err == nil {
+		vrt.Cover("ccall-returns-nil")
+	} else if err == context.Canceled {
+		vrt.Cover("ccall-returns-canceled")
+	} else {
+		vrt.Cover("ccall-returns-error")
+	}
+}
+
+// H_C17_Two: as H_C17_Three with two entries (cheaper; used by the quick tier).
+func H_C17_Two() {
+	var kinds [3]int
+	kinds[0] = vrt.Int("k0", 0, 3)
+	kinds[1] = vrt.Int("k1", 0, 3)
+	es := [3]error{errors.New("e0"), errors.New("e1"), nil}
+	var c0, c1, d0, d1 int
+	calls := [3]*int{&c0, &c1, nil}
+	done := [3]*int{&d0, &d1, nil}
+	ctx, cancel := context.WithCancel(context.Background())
+	cancelled := vrt.Bool("cancel")
+	if cancelled {
+		vrt.CancelAnytime(cancel)
+	}
+	err := ccall.CallConcurrently(ctx,
+		ccallEntry(kinds[0], es[0], calls[0], done[0]),
+		ccallEntry(kinds[1], es[1], calls[1], done[1]))
+	ccallCheck(2, kinds, es, calls, done, cancelled, err)
+	if err == nil {
+		vrt.Cover("ccall-returns-nil")
+	} else if err == context.Canceled {
+		vrt.Cover("ccall-returns-canceled")
+	} else {
+		vrt.Cover("ccall-returns-error")
+	}
+}
+
+// H_C17_Small: zero entries and one entry (including a single nil entry).
+func H_C17_Small() {
+	err := ccall.CallConcurrently(context.Background())
+	vrt.Assert(err == nil, "ccall-empty")
+	kind := vrt.Int("k", 0, 3)
+	e := errors.New("e")
+	var c, d int
+	ctx, cancel := context.WithCancel(context.Background())
+	if kind == 3 {
+		vrt.CancelAnytime(cancel)
+	}
+	err = ccall.CallConcurrently(ctx, ccallEntry(kind, e, &c, &d))
+	switch kind {
+	case 0:
+		vrt.Assert(err == nil && c == 0, "ccall-single-nil-entry")
+	case 1:
+		vrt.Assert(err == nil && c == 1 && d == 1, "ccall-single")
+	case 2:
+		vrt.Assert(err == e && c == 1 && d == 1, "ccall-single")
+	default:
+		vrt.Assert(err == context.Canceled && c == 1 && d == 1, "ccall-single")
+	}
 }
